@@ -137,7 +137,7 @@ class Sched(object):
             self.done[i] = True
             self._handoff(i, finished=True)
 
-    def run(self, bodies, timeout=60):
+    def run(self, bodies, timeout=900):
         ths = [threading.Thread(target=self._worker, args=(i, b), daemon=True) for i, b in enumerate(bodies)]
         for t in ths:
             t.start()
